@@ -35,6 +35,9 @@ def comps():
     c['dx'] = lambda i: [('n%d' % i, I(1)), ('d%d' % i, D(BIN('mul', F('n%d' % i), C(2))))]
     c['dl'] = lambda i: [('n%d' % i, I(1)), ('d%d' % i, D(BIN('add', F('n%d' % i), C(1)), sp='lambda'))]
     c['dxx'] = lambda i: [('t%d' % i, I(1)), ('w%d' % i, I(1)), ('d%d' % i, D(BIN('sub', F('t%d' % i), BIN('mul', F('w%d' % i), C(2)))))]
+    # a size that is a truth value: one byte present iff the condition holds (True counts as 1)
+    c['db'] = lambda i: [('n%d' % i, I(1)), ('d%d' % i, D(BIN('gt', F('n%d' % i), C(1))))]
+    c['dbl'] = lambda i: [('n%d' % i, I(1)), ('d%d' % i, D(BIN('eq', F('n%d' % i), C(2)), sp='lambda'))]
     c['m0'] = lambda i: [('d%d' % i, DM(b'\x00'))]
     c['m0i'] = lambda i: [('d%d' % i, DM(b'\x00', incl=True))]
     c['mab'] = lambda i: [('d%d' % i, DM(b'.b'))]
